@@ -978,3 +978,26 @@ package vegeta
 //@   requires [non-nil] a != nil
 //@   modifies a.redirects, a.client
 //@   ensures [policy-installed] a.redirects == n
+
+// ---------------------------------------------------------------------------------- C03 C06 (options)
+// The option setters the command uses store exactly the value they are given.
+//@ func Workers$1
+//@   property C03
+//@   requires [non-nil] a != nil
+//@   modifies a.workers
+//@   ensures [stores-the-given-value] a.workers == n
+//@ func MaxWorkers$1
+//@   property C03
+//@   requires [non-nil] a != nil
+//@   modifies a.maxWorkers
+//@   ensures [stores-the-given-value] a.maxWorkers == n
+//@ func MaxBody$1
+//@   property C06
+//@   requires [non-nil] a != nil
+//@   modifies a.maxBody
+//@   ensures [stores-the-given-value] a.maxBody == n
+//@ func ChunkedBody$1
+//@   property C06
+//@   requires [non-nil] a != nil
+//@   modifies a.chunked
+//@   ensures [stores-the-given-value] a.chunked == b
